@@ -295,6 +295,8 @@ pub struct RecStream {
     pub fail_all: Option<Res>,
     /// `fail_all` applies from this entry ordinal on (the first `fail_all_from` entries succeed)
     pub fail_all_from: u64,
+    /// ... and stops applying at this entry ordinal (an outage that ends): later entries succeed again
+    pub fail_all_until: u64,
     /// called inside every entry's `next` with the index of that call (a stream that itself uses
     /// the sink it serves); filled in by the scenario once the sink exists
     pub on_entry_next: Callback<u64>,
@@ -333,6 +335,7 @@ impl RecStream {
                 flush_fail_from: None,
                 fail_all: None,
                 fail_all_from: 0,
+                fail_all_until: u64::MAX,
                 on_entry_next: Callback::default(),
                 install_subscriber_at: None,
                 next_calls: 0,
@@ -413,7 +416,7 @@ impl EntryIoStream for RecStream {
         let res = if seen.report {
             self.report_res
         } else {
-            seen.id.and_then(|id| self.script.get(&id).copied()).or(if self.ctl.entry_nexts_done.load(Ordering::SeqCst) >= self.fail_all_from { self.fail_all } else { None }).unwrap_or(Res::Ok)
+            seen.id.and_then(|id| self.script.get(&id).copied()).or(if (self.fail_all_from..self.fail_all_until).contains(&self.ctl.entry_nexts_done.load(Ordering::SeqCst)) { self.fail_all } else { None }).unwrap_or(Res::Ok)
         };
         self.ctl.hist.log(K::NextEnd { stream: no, id: seen.id, report: seen.report, res });
         self.ctl.nexts_done.fetch_add(1, Ordering::SeqCst);
